@@ -1,4 +1,10 @@
 ---- MODULE MC_NP2Convert ----
 EXTENDS NP2Convert
 AllKinds == {"NP24", "NP21", "NP1", "split"}
+\* initial directories: form of the original x what the shank folders already hold (NP2Convert!Init)
+AllForms == {"bin", "cbin", "both", "binS", "cbinS"}
+AllFounds == {"none", "dirs", "bins", "cbins", "mixed"}
+QuickForms == {"bin", "cbin", "both"}
+QuickFounds == {"none", "cbins"}
+Yes == TRUE
 ====
